@@ -315,6 +315,14 @@ func (x *Exec) loopsOf(fn *ssa.Function) map[*ssa.BasicBlock]*loopInfo {
 			m[h].spec = c.Loops[i+1]
 		}
 	}
+	if c != nil && fn == x.fn {
+		// vacuity: a loop clause for a loop the function does not have checks nothing
+		for k := range c.Loops {
+			if k < 1 || k > len(hs) {
+				x.errorf("loop %d clauses of %s refer to a loop that does not exist (the function has %d)", k, fnDisplay(fn), len(hs))
+			}
+		}
+	}
 	x.loops[fn] = m
 	return m
 }
